@@ -109,7 +109,20 @@ func errClass(err error) string {
 	case err == io.EOF || err == io.ErrUnexpectedEOF:
 		return "err-eof"
 	}
-	return "err:" + strings.ReplaceAll(m, " ", "_")
+	// other messages: keep a printable ASCII prefix only (some embed raw key bytes)
+	var b strings.Builder
+	for i := 0; i < len(m) && b.Len() < 48; i++ {
+		c := m[i]
+		switch {
+		case c == ' ':
+			b.WriteByte('_')
+		case c > 32 && c < 127:
+			b.WriteByte(c)
+		default:
+			b.WriteByte('?')
+		}
+	}
+	return "err:" + b.String()
 }
 
 func showItem(i *gkvlite.Item, wv bool) string {
@@ -693,6 +706,14 @@ func (w *World) exec(t []string) string {
 		}
 		w.rmark[atoi(t[1])] = len(mf.Log)
 		return strings.Join(out, ",")
+	case "crashj": // crashj F K C JUNKHEX: crash image (K,C) of F with junk appended
+		mf := w.files[atoi(t[1])]
+		var img []byte
+		if mf != nil {
+			img = memfile.CrashImage(mf.Mutations(), atoi(t[2]), atoi(t[3]))
+		}
+		j, _ := hex.DecodeString(t[4])
+		return openDigest(w, append(append([]byte(nil), img...), j...))
 	case "crashopen": // crashopen F K C F2 S: a new file F2 holding crash image (K,C) of F, opened as S
 		mf := w.files[atoi(t[1])]
 		var img []byte
